@@ -1,0 +1,18 @@
+//go:build verif
+
+// Package verifhook provides event points for the external verification harness.
+package verifhook
+
+import "sync/atomic"
+
+var handler atomic.Value // of func(point string, arg any)
+
+// SetHandler installs the function called at every event point.
+func SetHandler(f func(point string, arg any)) { handler.Store(f) }
+
+// At marks an event point and calls the installed handler, if any.
+func At(point string, arg any) {
+	if f, ok := handler.Load().(func(point string, arg any)); ok && f != nil {
+		f(point, arg)
+	}
+}
